@@ -121,7 +121,9 @@ func refused() {
 		outs, _ := drv.Outs()
 		out := outs[0]
 		var got []ls.Delivered
-		stop, err := midi.ListenTo(ins[0], func(m midi.Message, ts int32) { got = append(got, ls.Delivered{Msg: append([]byte(nil), m...), TS: ts}) })
+		stop, err := midi.ListenTo(ins[0], func(m midi.Message, ts int32) {
+			got = append(got, ls.Delivered{Msg: append([]byte(nil), m...), TS: ts})
+		})
 		if err != nil {
 			ctx.Guard(false, "refused: ListenTo: %v", err)
 			return
